@@ -71,6 +71,20 @@ def run(ctx):
                    sample={"frames": [(f[0], f[1], len(f[2])) for f in frames][:8], "control": control})
             judge(T, frames, stream, control, line, s, pub)
             runs.append((sc, line))
+    # a long run of pings swallowed inside ONE receive call (no bound on their number): all answered, the next message delivered
+    long_keys = (KEYS * 25)[:1500]
+    pings = [lcg_bytes(i % 126, i) for i in range(1400)]
+    stream = encode_frames([(1, 1, b"before")] + [(9, 1, p_) for p_ in pings] + [(1, 1, b"after")])
+    sc = {"fire": 0, "skip": 0, "script": [["D", stream.hex()]], "keys": long_keys, "ops": ["rd0", "rd0", "rd0"]}
+    line, s_ = wsrun.run_impl(sc)
+    T.case(("long-ping-run",), nontrivial=True, bucket="long-run", sample={"pings": len(pings), "line": line[:100]})
+    writes = [x for x in line.split(";io=")[1].split(",") if x.startswith("w")]
+    want = ["w" + digest(pong_wire(p_, long_keys[j])) for j, p_ in enumerate(pings)]
+    res_ = line.split(";")[0].split("|")
+    if writes != want or not res_[1].startswith("ok:1:"):
+        T.fail("spec", {"kind": "long-ping-run", "pings": len(pings)}, f"{len(want)} pongs and the following message delivered",
+               f"{len(writes)} writes, results {res_[:3]}", {"site": "recv_data_frame", "cls": "pong-count-or-content", "long_run": True},
+               what="a long run of pings inside one receive call was not answered completely / the call failed")
     # pings that arrive after the client's own send_close() and before the server's close frame are answered like any other
     for i in range(20 if ctx.tier == "quick" else 300):
         pings = [lcg_bytes(rng.choice([0, 1, 7, 125]), rng.randrange(1000)) for _ in range(rng.randrange(1, 4))]
@@ -118,6 +132,8 @@ def search(ctx):
 
 def replay(ctx, sc):
     stream = bytes.fromhex(sc["stream"])
+    if sc.get("kind") == "long-ping-run":
+        return {"note": "rerun ./check C07 quick (the scenario is fixed: 1400 pings between two text messages)"}
     if sc.get("kind") == "after-own-close":
         line, s_ = wsrun.run_impl({"fire": 0, "skip": 0, "script": [["D", stream.hex()]], "keys": KEYS, "ops": sc["ops"]})
         sp = parse_specseq(ctx.spec.run(["specseq 1 " + hx(stream)])[0])
